@@ -48,7 +48,7 @@ theorem swf_mul (fs : List SExpr) : swf (.mul fs) =
   cases fs <;> simp [swf, para, paraL_eq, swfAlg, List.all_map, Function.comp_def, paraL]
 
 theorem swf_pow (b e : SExpr) : swf (.pow b e) =
-    (swf b && swf e && !isRat e && !(isNegOne e && isRat b)) := by
+    (swf b && swf e && !(isNegOne e && isRat b)) := by
   simp [swf, para, swfAlg]
 
 theorem swf_fn (f : SFn) (args : List SExpr) : swf (.fn f args) =
@@ -57,7 +57,53 @@ theorem swf_fn (f : SFn) (args : List SExpr) : swf (.fn f args) =
     Function.comp_def]
   rfl
 
+theorem swfX_add (ts : List SExpr) : swfX (.add ts) = (!ts.isEmpty && ts.all swfX) := by
+  simp only [swfX, para, paraL_eq, swfXAlg, List.all_map, List.isEmpty_map, List.length_map,
+    Function.comp_def]
+  rfl
+
+theorem swfX_mul (fs : List SExpr) : swfX (.mul fs) =
+    (fs.all (fun g => swfX g && !isMulS g) &&
+      (match fs with | [] => false | _ :: rest => rest.all (fun g => !isNum g))) := by
+  cases fs <;> simp [swfX, para, paraL_eq, swfXAlg, List.all_map, Function.comp_def, paraL]
+
+theorem swfX_pow (b e : SExpr) : swfX (.pow b e) =
+    (swfX b && swfX e && !(isNegOne e && isRat b)) := by
+  simp [swfX, para, swfXAlg]
+
+theorem swfX_fn (f : SFn) (args : List SExpr) : swfX (.fn f args) =
+    (args.all swfX && arityOk f args.length) := by
+  simp only [swfX, para, paraL_eq, swfXAlg, List.all_map, List.isEmpty_map, List.length_map,
+    Function.comp_def]
+  rfl
+
 /-! ### unfolding the printer and the surface tree, one node at a time -/
+
+/-- the text of the negated product (`apow`: the exponent of a denominator entry) -/
+theorem tk_neg_mul (fs : List SExpr) : (tkOf (.mul fs)).neg =
+    match fs with
+    | [c, y] => if isNegOne c then (tkOf y).toks else mulBody 50 (tkL fs)
+    | _ => mulBody 50 (tkL fs) := by
+  match fs with
+  | [] => rfl
+  | [_] => rfl
+  | [_, _] => rfl
+  | _ :: _ :: _ :: rest =>
+    simp only [tkOf, para, paraL, paraL_eq, tkL, List.map_cons]
+    rfl
+
+theorem sf_neg_mul (fs : List SExpr) : (sfOf (.mul fs)).neg =
+    match fs with
+    | [c, y] => if isNegOne c then (sfOf y).e else mulBodyE false (sfL fs)
+    | _ => mulBodyE false (sfL fs) := by
+  match fs with
+  | [] => rfl
+  | [_] => rfl
+  | [_, _] => rfl
+  | _ :: _ :: _ :: rest =>
+    simp only [sfOf, para, paraL, paraL_eq, sfL, List.map_cons]
+    rfl
+
 
 theorem tk_add (ts : List SExpr) :
     (tkOf (.add ts)).toks = addJoin ((tkL ts).map (addStep 40)) := by
@@ -70,7 +116,9 @@ theorem tk_mul (fs : List SExpr) :
 
 theorem tk_pow (b e : SExpr) :
     (tkOf (.pow b e)).toks =
-      if isNegOne e then .num 1 :: .op .slash :: par 60 (precS b) (tkOf b).toks
+      if isHalf e then call "sqrt" (tkOf b).toks
+      else if isNegHalf e then .num 1 :: .op .slash :: call "sqrt" (tkOf b).toks
+      else if isNegOne e then .num 1 :: .op .slash :: par 60 (precS b) (tkOf b).toks
       else par 60 (precS b) (tkOf b).toks ++ .op .dstar :: par 60 (precS e) (tkOf e).toks := by
   simp only [tkOf, para]; rfl
 
@@ -79,6 +127,7 @@ theorem tk_den (b e : SExpr) (lv : Nat) :
       if isNegOne e then
         (if isMulOrPow b then paren (par lv (precS b) (tkOf b).toks)
          else par lv (precS b) (tkOf b).toks)
+      else if isNegHalf e then call "sqrt" (tkOf b).toks
       else par 60 (precS b) (tkOf b).toks ++ .op .dstar :: par 60 (precNeg e) (tkOf e).neg := by
   simp only [tkOf, para]; rfl
 
@@ -97,12 +146,16 @@ theorem sf_mul (fs : List SExpr) :
 
 theorem sf_pow (b e : SExpr) :
     (sfOf (.pow b e)).e =
-      if isNegOne e then .bin .div (.num 1) (sfOf b).e else .bin .pow (sfOf b).e (sfOf e).e := by
+      if isHalf e then .un .sqrt (sfOf b).e
+      else if isNegHalf e then .bin .div (.num 1) (.un .sqrt (sfOf b).e)
+      else if isNegOne e then .bin .div (.num 1) (sfOf b).e else .bin .pow (sfOf b).e (sfOf e).e := by
   simp only [sfOf, para]; rfl
 
 theorem sf_den (b e : SExpr) :
     (sfOf (.pow b e)).den =
-      if isNegOne e then (sfOf b).e else .bin .pow (sfOf b).e (sfOf e).neg := by
+      if isNegOne e then (sfOf b).e
+      else if isNegHalf e then .un .sqrt (sfOf b).e
+      else .bin .pow (sfOf b).e (sfOf e).neg := by
   simp only [sfOf, para]; rfl
 
 theorem sf_fn (f : SFn) (args : List SExpr) :
@@ -197,7 +250,7 @@ def lvl : SExpr → Nat
   | .sym _ => 4
   | .add _ => 0
   | .mul _ => 1
-  | .pow _ e => if isNegOne e then 1 else 3
+  | .pow _ e => if isHalf e then 4 else if isNegOne e || isNegHalf e then 1 else 3
   | .fn _ _ => 4
 
 theorem P4 {ts e} (h : P 4 ts e) : PPrim ts e := h
@@ -227,9 +280,23 @@ theorem par60 {s : SExpr} {ts e} (h : P (lvl s) ts e) : PPrim (par 60 (precS s) 
     | fn f args => exact h
 
 /-- `parenthesize(item, 40 | 50)` for a factor that is not a number, a product or `1/x` -/
+theorem negCoeff_flags {x : SExpr} (h : negCoeff x = false) :
+    isNegOne x = false ∧ isNegHalf x = false := by
+  cases x with
+  | int z =>
+    have hz : ¬ z < 0 := by simpa [negCoeff] using h
+    refine ⟨?_, rfl⟩
+    simp only [isNegOne, beq_eq_false_iff_ne]; omega
+  | rat p q =>
+    have hz : ¬ p < 0 := by simpa [negCoeff] using h
+    refine ⟨rfl, ?_⟩
+    have : (p == -1) = false := by simp only [beq_eq_false_iff_ne]; omega
+    simp [isNegHalf, this]
+  | _ => exact ⟨rfl, rfl⟩
+
 theorem parMul {s : SExpr} {ts e} {lv : Nat} (hlv : lv = 40 ∨ lv = 50) (h : P (lvl s) ts e)
     (h1 : isNum s = false) (h2 : isMulS s = false)
-    (h3 : ∀ b x, s = .pow b x → isNegOne x = false) : PPower (par lv (precS s) ts) e := by
+    (h3 : ∀ b x, s = .pow b x → negCoeff x = false) : PPower (par lv (precS s) ts) e := by
   unfold par
   split
   · exact (P.down (j := 0) h (Nat.zero_le _)).paren.toPower
@@ -241,8 +308,12 @@ theorem parMul {s : SExpr} {ts e} {lv : Nat} (hlv : lv = 40 ∨ lv = 50) (h : P 
     | add ts => rcases hlv with rfl | rfl <;> simp [precS] at hp
     | mul fs => simp [isMulS] at h2
     | pow b x =>
-      have h' : P 3 ts e := by simpa [lvl, h3 b x rfl] using h
-      exact h'
+      obtain ⟨h4, h5⟩ := negCoeff_flags (h3 b x rfl)
+      by_cases hh : isHalf x = true
+      · have h' : P 4 ts e := by simpa [lvl, hh] using h
+        exact PPrim.toPower h'
+      · have h' : P 3 ts e := by simpa [lvl, hh, h4, h5] using h
+        exact h'
     | fn f args => exact PPrim.toPower h
 
 theorem ppNat_P (m : Bool) (n : Nat) : PUnary (ppNat m n) (numE m n) := by
@@ -254,11 +325,20 @@ theorem ppNat_P (m : Bool) (n : Nat) : PUnary (ppNat m n) (numE m n) := by
     a power with a negative literal exponent also has its denominator entry -/
 def Inv (s : SExpr) : Prop :=
   P (lvl s) (tkOf s).toks (sfOf s).e ∧
-  (∀ b z, s = .pow b (.int z) → z < 0 → ∀ lv, (lv = 40 ∨ lv = 50) →
-    PUnary ((tkOf s).den lv) (sfOf s).den)
+  (∀ b x, s = .pow b x → negCoeff x = true → ∀ lv, (lv = 40 ∨ lv = 50) →
+    PUnary ((tkOf s).den lv) (sfOf s).den) ∧
+  -- the negated exponent `apow` prints for a denominator entry
+  (negCoeff s = true → PUnary (par 60 (precNeg s) (tkOf s).neg) (sfOf s).neg)
 
 theorem inv_int (z : Int) : Inv (.int z) := by
-  refine ⟨?_, by intro b z' h; cases h⟩
+  refine ⟨?_, (by intro b z' h; cases h), ?_⟩
+  rotate_left
+  · intro hn
+    have hz' : ¬ (0 < z) := by
+      have : z < 0 := by simpa [negCoeff] using hn
+      omega
+    simp only [par, precNeg, tkOf, sfOf, para, tokAlg, surfAlg, hz', decide_false, ppNat, numE]
+    exact (PPrim.num _).toPower.toUnary
   have h := ppNat_P (z < 0) z.natAbs
   by_cases hz : z < 0
   · simpa [lvl, hz, tkOf, sfOf, para, tokAlg, surfAlg, P] using h
@@ -266,36 +346,66 @@ theorem inv_int (z : Int) : Inv (.int z) := by
     exact PPrim.num _
 
 theorem inv_rat (p : Int) (q : Nat) : Inv (.rat p q) := by
-  refine ⟨?_, by intro b z' h; cases h⟩
+  refine ⟨?_, (by intro b z' h; cases h), ?_⟩
+  rotate_left
+  · intro hn
+    have hp : ¬ (0 < p) := by
+      have : p < 0 := by simpa [negCoeff] using hn
+      omega
+    have := PTerm.mulOp .slash (PPrim.num p.natAbs).toPower.toUnary.toTerm
+      (PPrim.num q).toPower.toUnary
+    have h' : PTerm ([Tok.num p.natAbs] ++ [Tok.op .slash, Tok.num q])
+        (.bin .div (.num p.natAbs) (.num q)) := by
+      simpa [MulOp.tok, MulOp.bin] using this
+    simp only [par, precNeg, tkOf, sfOf, para, tokAlg, surfAlg, hp, decide_false, ppNat, numE]
+    exact h'.toExpr.paren.toPower.toUnary
   have h := PTerm.mulOp .slash (ppNat_P (p < 0) p.natAbs).toTerm (PPrim.num q).toPower.toUnary
   simpa [lvl, tkOf, sfOf, para, tokAlg, surfAlg, P, MulOp.tok, MulOp.bin] using h
 
 theorem inv_sym (x : String) : Inv (.sym x) :=
-  ⟨⟨.ident x, rfl, rfl⟩, by intro b z' h; cases h⟩
+  ⟨⟨.ident x, rfl, rfl⟩, (by intro b z' h; cases h), by intro h; simp [negCoeff] at h⟩
 
 theorem negCoeff_of_isNegOne {e : SExpr} (h : isNegOne e = true) : negCoeff e = true := by
   cases e <;> simp [isNegOne] at h
   subst h; simp [negCoeff]
 
-theorem inv_pow (b e : SExpr) (hb : Inv b) (he : Inv e) (hw : SWf (.pow b e)) : Inv (.pow b e) := by
+theorem inv_pow (b e : SExpr) (hb : Inv b) (he : Inv e) (hw : SWfX (.pow b e)) : Inv (.pow b e) := by
   have hw' := hw
-  simp only [SWf, swf_pow, Bool.and_eq_true, Bool.not_eq_true'] at hw'
-  obtain ⟨⟨⟨_, _⟩, _⟩, hnr⟩ := hw'
+  simp only [SWfX, swfX_pow, Bool.and_eq_true, Bool.not_eq_true'] at hw'
+  obtain ⟨⟨_, _⟩, hnr⟩ := hw'
   have hB : PPrim (par 60 (precS b) (tkOf b).toks) (sfOf b).e := par60 hb.1
-  constructor
+  have hS : PPrim (call "sqrt" (tkOf b).toks) (.un .sqrt (sfOf b).e) := by
+    simpa [Fn1.name, Fn1.un] using PExpr.call1 .sqrt (P.down (j := 0) hb.1 (Nat.zero_le _))
+  refine ⟨?_, ?_, by intro h; simp [negCoeff] at h⟩
   · rw [tk_pow, sf_pow]
-    by_cases h1 : isNegOne e = true
-    · simp only [lvl, h1, if_true]
-      have := PTerm.mulOp .slash (PPrim.num 1).toPower.toUnary.toTerm hB.toPower.toUnary
-      have h' : PTerm (.num 1 :: .op .slash :: par 60 (precS b) (tkOf b).toks)
-          (.bin .div (.num 1) (sfOf b).e) := by simpa [MulOp.tok, MulOp.bin] using this
-      exact h'
-    · simp only [lvl, h1]
-      exact PPrim.pow hB (par60 he.1).toPower.toUnary
-  · intro b' z h hz lv hlv
+    by_cases h0 : isHalf e = true
+    · have hl : lvl (.pow b e) = 4 := by simp [lvl, h0]
+      rw [hl]; simp only [h0, if_true]
+      exact hS
+    · have h0' : isHalf e = false := by simpa using h0
+      by_cases h2 : isNegHalf e = true
+      · have hl : lvl (.pow b e) = 1 := by simp [lvl, h0', h2]
+        rw [hl]; simp only [h0', h2, if_true, Bool.false_eq_true, if_false]
+        have := PTerm.mulOp .slash (PPrim.num 1).toPower.toUnary.toTerm hS.toPower.toUnary
+        have h' : PTerm (.num 1 :: .op .slash :: call "sqrt" (tkOf b).toks)
+            (.bin .div (.num 1) (.un .sqrt (sfOf b).e)) := by simpa [MulOp.tok, MulOp.bin] using this
+        exact h'
+      · have h2' : isNegHalf e = false := by simpa using h2
+        by_cases h1 : isNegOne e = true
+        · have hl : lvl (.pow b e) = 1 := by simp [lvl, h0', h1]
+          rw [hl]; simp only [h0', h2', h1, if_true, Bool.false_eq_true, if_false]
+          have := PTerm.mulOp .slash (PPrim.num 1).toPower.toUnary.toTerm hB.toPower.toUnary
+          have h' : PTerm (.num 1 :: .op .slash :: par 60 (precS b) (tkOf b).toks)
+              (.bin .div (.num 1) (sfOf b).e) := by simpa [MulOp.tok, MulOp.bin] using this
+          exact h'
+        · have h1' : isNegOne e = false := by simpa using h1
+          have hl : lvl (.pow b e) = 3 := by simp [lvl, h0', h1', h2']
+          rw [hl]; simp only [h0', h2', h1', Bool.false_eq_true, if_false]
+          exact PPrim.pow hB (par60 he.1).toPower.toUnary
+  · intro b' x h hn lv hlv
     cases h
     rw [tk_den, sf_den]
-    by_cases h1 : isNegOne (.int z) = true
+    by_cases h1 : isNegOne e = true
     · simp only [h1, if_true]
       have hE : PExpr (par lv (precS b) (tkOf b).toks) (sfOf b).e := par_expr hb.1
       by_cases h2 : isMulOrPow b = true
@@ -320,12 +430,14 @@ theorem inv_pow (b e : SExpr) (hb : Inv b) (he : Inv e) (hw : SWf (.pow b e)) : 
         | sym x => exact (parMul hlv hb.1 rfl rfl (by intro _ _ h; cases h)).toUnary
         | add ts => exact (parMul hlv hb.1 rfl rfl (by intro _ _ h; cases h)).toUnary
         | fn f args => exact (parMul hlv hb.1 rfl rfl (by intro _ _ h; cases h)).toUnary
-    · simp only [h1]
-      have hz' : ¬ (0 < z) := by omega
-      have : PUnary (par 60 (precNeg (.int z)) (tkOf (.int z)).neg) (sfOf (.int z)).neg := by
-        simp only [par, precNeg, tkOf, sfOf, para, tokAlg, surfAlg, hz', decide_false, ppNat, numE]
-        exact (PPrim.num _).toPower.toUnary
-      exact (PPrim.pow hB this).toUnary
+    · have h1' : isNegOne e = false := by simpa using h1
+      by_cases h2 : isNegHalf e = true
+      · simp only [h1', h2, if_true, Bool.false_eq_true, if_false]
+        exact hS.toPower.toUnary
+      · have h2' : isNegHalf e = false := by simpa using h2
+        simp only [h1', h2', Bool.false_eq_true, if_false]
+        have : PUnary (par 60 (precNeg e) (tkOf e).neg) (sfOf e).neg := he.2.2 hn
+        exact (PPrim.pow hB this).toUnary
 
 theorem forall2_map {α β γ} {R : β → γ → Prop} (f : α → β) (g : α → γ) (l : List α)
     (h : ∀ a ∈ l, R (f a) (g a)) : List.Forall₂ R (l.map f) (l.map g) := by
@@ -343,10 +455,10 @@ theorem callN_of {x : List Tok} {e : Expr} {items : List (List Tok)} {es : List 
   obtain ⟨d, h1, h2⟩ := args_of hx h
   exact ⟨.callN f d, by simp [D.flatten, h1, call], by simp [D.sem, h2, FnN.apply]⟩
 
-theorem inv_fn (f : SFn) (args : List SExpr) (ih : ∀ a ∈ args, Inv a) (hw : SWf (.fn f args)) :
+theorem inv_fn (f : SFn) (args : List SExpr) (ih : ∀ a ∈ args, Inv a) (hw : SWfX (.fn f args)) :
     Inv (.fn f args) := by
-  refine ⟨?_, by intro b z' h; cases h⟩
-  simp only [SWf, swf_fn, Bool.and_eq_true] at hw
+  refine ⟨?_, (by intro b z' h; cases h), by intro h; simp [negCoeff] at h⟩
+  simp only [SWfX, swfX_fn, Bool.and_eq_true] at hw
   obtain ⟨_, har⟩ := hw
   rw [tk_fn, sf_fn]
   show PPrim _ _
@@ -400,7 +512,7 @@ theorem prec_ge (s : SExpr) : 40 ≤ precS s := by
 theorem lvl_pos {s : SExpr} (h : isAddS s = false) : 1 ≤ lvl s := by
   cases s with
   | int z => simp only [lvl]; split <;> omega
-  | pow b e => simp only [lvl]; split <;> omega
+  | pow b e => simp only [lvl]; split <;> [omega; (split <;> omega)]
   | add ts => simp [isAddS] at h
   | _ => simp [lvl]
 
@@ -467,9 +579,9 @@ theorem addStep_ok {t : SExpr} (h : Inv t) :
       rw [addStep_other hA' hp hm', addStepE_other hA' hm']
       exact ⟨rfl, hT, by simpa using hT.toExpr⟩
 
-theorem inv_add (ts : List SExpr) (ih : ∀ a ∈ ts, Inv a) (hw : SWf (.add ts)) : Inv (.add ts) := by
-  refine ⟨?_, by intro b z' h; cases h⟩
-  simp only [SWf, swf_add, Bool.and_eq_true] at hw
+theorem inv_add (ts : List SExpr) (ih : ∀ a ∈ ts, Inv a) (hw : SWfX (.add ts)) : Inv (.add ts) := by
+  refine ⟨?_, (by intro b z' h; cases h), by intro h; simp [negCoeff] at h⟩
+  simp only [SWfX, swfX_add, Bool.and_eq_true] at hw
   match ts, hw with
   | t :: rest, _ =>
     rw [tk_add, sf_add]
@@ -486,7 +598,7 @@ theorem inv_add (ts : List SExpr) (ih : ∀ a ∈ ts, Inv a) (hw : SWf (.add ts)
 
 /-! ### products -/
 
-def FacOk (f : SExpr) : Prop := Inv f ∧ denOk f = true ∧ isMulS f = false
+def FacOk (f : SExpr) : Prop := Inv f ∧ isMulS f = false
 
 theorem not_negOne_of {e : SExpr} (h : negCoeff e = false) : isNegOne e = false := by
   cases h' : isNegOne e
@@ -498,8 +610,8 @@ theorem mulNum_ok {lv : Nat} (hlv : lv = 40 ∨ lv = 50) : ∀ fs : List SExpr, 
   | [], _ => by simp [tkL, sfL, mulNum, mulNumE]
   | f :: rest, h => by
     have ih := mulNum_ok hlv rest (fun g hg => h g (by simp [hg]))
-    obtain ⟨hi, _, hm⟩ := h f (by simp)
-    have other : isNum f = false → (∀ b x, f = .pow b x → isNegOne x = false) →
+    obtain ⟨hi, hm⟩ := h f (by simp)
+    have other : isNum f = false → (∀ b x, f = .pow b x → negCoeff x = false) →
         List.Forall₂ PUnary (par lv (precS f) (tkOf f).toks :: mulNum lv (tkL rest))
           ((sfOf f).e :: mulNumE (sfL rest)) :=
       fun h1 h3 => .cons (parMul hlv hi.1 h1 hm h3).toUnary ih
@@ -518,7 +630,7 @@ theorem mulNum_ok {lv : Nat} (hlv : lv = 40 ∨ lv = 50) : ∀ fs : List SExpr, 
       · simpa [hn] using ih
       · have hn' : negCoeff e = false := by simpa using hn
         simpa [hn', tkL, sfL] using
-          other rfl (by intro b' x hx; cases hx; exact not_negOne_of hn')
+          other rfl (by intro b' x hx; cases hx; exact hn')
     | sym x => simpa [tkL, sfL] using other rfl (by intro _ _ hx; cases hx)
     | add ts => simpa [tkL, sfL] using other rfl (by intro _ _ hx; cases hx)
     | mul gs => simp [isMulS] at hm
@@ -529,7 +641,7 @@ theorem mulDen_ok {lv : Nat} (hlv : lv = 40 ∨ lv = 50) : ∀ fs : List SExpr, 
   | [], _ => by simp [tkL, sfL, mulDen, mulDenE]
   | f :: rest, h => by
     have ih := mulDen_ok hlv rest (fun g hg => h g (by simp [hg]))
-    obtain ⟨hi, hd, _⟩ := h f (by simp)
+    obtain ⟨hi, _⟩ := h f (by simp)
     simp only [tkL, sfL, List.map_cons, mulDen, mulDenE] at ih ⊢
     cases f with
     | rat p q =>
@@ -538,11 +650,7 @@ theorem mulDen_ok {lv : Nat} (hlv : lv = 40 ∨ lv = 50) : ∀ fs : List SExpr, 
       · simpa [hz] using List.Forall₂.cons (PPrim.num q).toPower.toUnary ih
     | pow b e =>
       by_cases hn : negCoeff e = true
-      · cases e with
-        | int z =>
-          have hz : z < 0 := by simpa [negCoeff] using hn
-          simpa [hn] using List.Forall₂.cons (hi.2 b z rfl hz lv hlv) ih
-        | _ => simp [denOk, hn] at hd
+      · simpa [hn] using List.Forall₂.cons (hi.2.1 b e rfl hn lv hlv) ih
       · have hn' : negCoeff e = false := by simpa using hn
         simpa [hn'] using ih
     | int z => simpa using ih
@@ -600,46 +708,87 @@ theorem mulBody_ok {lv : Nat} (hlv : lv = 40 ∨ lv = 50) (minus : Bool) (fs : L
       have := PTerm.mulOp .slash hn hprod.toExpr.paren.toPower.toUnary
       simpa [MulOp.tok, MulOp.bin, foldBin] using this
 
-theorem inv_mul (fs : List SExpr) (ih : ∀ a ∈ fs, SWf a → Inv a) (hw : SWf (.mul fs)) :
+theorem inv_mul (fs : List SExpr) (ih : ∀ a ∈ fs, SWfX a → Inv a) (hw : SWfX (.mul fs)) :
     Inv (.mul fs) := by
-  refine ⟨?_, by intro b z' h; cases h⟩
-  simp only [SWf, swf_mul, Bool.and_eq_true, List.all_eq_true, Bool.not_eq_true'] at hw
-  have hf : ∀ f ∈ fs, FacOk f := fun f hf =>
-    ⟨ih f hf (hw.1 f hf).1.1, (hw.1 f hf).1.2, (hw.1 f hf).2⟩
-  rw [tk_mul, sf_mul]
-  show PTerm _ _
-  by_cases hn : negCoeff (.mul fs) = true
-  · simpa [hn] using mulBody_ok (Or.inl rfl) true fs hf
-  · have hn' : negCoeff (.mul fs) = false := by simpa using hn
-    simpa [hn'] using mulBody_ok (Or.inr rfl) false fs hf
+  simp only [SWfX, swfX_mul, Bool.and_eq_true, List.all_eq_true, Bool.not_eq_true'] at hw
+  have hf : ∀ f ∈ fs, FacOk f := fun f hf => ⟨ih f hf (hw.1 f hf).1, (hw.1 f hf).2⟩
+  refine ⟨?_, (by intro b z' h; cases h), ?_⟩
+  · rw [tk_mul, sf_mul]
+    show PTerm _ _
+    by_cases hn : negCoeff (.mul fs) = true
+    · simpa [hn] using mulBody_ok (Or.inl rfl) true fs hf
+    · have hn' : negCoeff (.mul fs) = false := by simpa using hn
+      simpa [hn'] using mulBody_ok (Or.inr rfl) false fs hf
+  · intro _
+    have generic : PUnary (par 60 50 (mulBody 50 (tkL fs))) (mulBodyE false (sfL fs)) := by
+      have h := mulBody_ok (Or.inr rfl) false fs hf
+      have h' : PTerm (mulBody 50 (tkL fs)) (mulBodyE false (sfL fs)) := by simpa using h
+      simp only [par, show (50 : Nat) ≤ 60 by omega, if_true]
+      exact h'.toExpr.paren.toPower.toUnary
+    rw [tk_neg_mul, sf_neg_mul]
+    match fs, hf, generic with
+    | [], _, g => exact g
+    | [_], _, g => exact g
+    | [c, y], hf, g =>
+      by_cases hc : isNegOne c = true
+      · simp only [precNeg, hc, if_true]
+        exact (par60 (hf y (by simp)).1.1).toPower.toUnary
+      · have hc' : isNegOne c = false := by simpa using hc
+        simp only [precNeg, hc', Bool.false_eq_true, if_false]
+        exact g
+    | _ :: _ :: _ :: _, _, g => exact g
 
 /-- the printed text derives from the grammar and denotes the surface tree -/
-theorem inv_all : ∀ s, SWf s → Inv s := by
+theorem inv_all : ∀ s, SWfX s → Inv s := by
   apply SExpr.ind
   · intro z _; exact inv_int z
   · intro p q _; exact inv_rat p q
   · intro x _; exact inv_sym x
   · intro ts ih hw
     have hw' := hw
-    simp only [SWf, swf_add, Bool.and_eq_true, List.all_eq_true] at hw'
+    simp only [SWfX, swfX_add, Bool.and_eq_true, List.all_eq_true] at hw'
     exact inv_add ts (fun a ha => ih a ha (hw'.2 a ha)) hw
   · intro fs ih hw; exact inv_mul fs ih hw
   · intro b e ihb ihe hw
     have hw' := hw
-    simp only [SWf, swf_pow, Bool.and_eq_true] at hw'
-    exact inv_pow b e (ihb hw'.1.1.1) (ihe hw'.1.1.2) hw
+    simp only [SWfX, swfX_pow, Bool.and_eq_true] at hw'
+    exact inv_pow b e (ihb hw'.1.1) (ihe hw'.1.2) hw
   · intro f args ih hw
     have hw' := hw
-    simp only [SWf, swf_fn, Bool.and_eq_true, List.all_eq_true] at hw'
+    simp only [SWfX, swfX_fn, Bool.and_eq_true, List.all_eq_true] at hw'
     exact inv_fn f args (fun a ha => ih a ha (hw'.1 a ha)) hw
 
+/-- `SWfX` only drops a condition of `SWf` -/
+theorem swf_imp_swfX : ∀ s, SWf s → SWfX s := by
+  apply SExpr.ind
+  · intro z _; rfl
+  · intro p q _; rfl
+  · intro x _; rfl
+  · intro ts ih hw
+    simp only [SWf, swf_add, SWfX, swfX_add, Bool.and_eq_true, List.all_eq_true] at hw ⊢
+    exact ⟨hw.1, fun a ha => ih a ha (hw.2 a ha)⟩
+  · intro fs ih hw
+    simp only [SWf, swf_mul, SWfX, swfX_mul, Bool.and_eq_true, List.all_eq_true,
+      Bool.not_eq_true'] at hw ⊢
+    exact ⟨fun a ha => ⟨ih a ha (hw.1 a ha).1.1, (hw.1 a ha).2⟩, hw.2⟩
+  · intro b e ihb ihe hw
+    simp only [SWf, swf_pow, SWfX, swfX_pow, Bool.and_eq_true] at hw ⊢
+    exact ⟨⟨ihb hw.1.1, ihe hw.1.2⟩, hw.2⟩
+  · intro f args ih hw
+    simp only [SWf, swf_fn, SWfX, swfX_fn, Bool.and_eq_true, List.all_eq_true] at hw ⊢
+    exact ⟨fun a ha => ih a ha (hw.1 a ha), hw.2⟩
+
 /-- The repository's parser (model `parseTokens`, proved equal to the documented grammar) reads
-    the text SymPy's `str()` prints for a well-formed tree `s` as exactly the tree `surf s`. -/
-theorem parse_ppSympy_surf (s : SExpr) (h : SWf s) : parseTokens (ppSympy s) = some (surf s) := by
+    the text SymPy's `str()` prints for a tree `s` (symbolic negative exponents in denominators
+    included) as exactly the tree `surf s`. -/
+theorem parse_ppSympy_surfX (s : SExpr) (h : SWfX s) : parseTokens (ppSympy s) = some (surf s) := by
   obtain ⟨d, h1, h2⟩ := (inv_all s h).expr
   show parseTokens (tkOf s).toks = some (sfOf s).e
   rw [← h1, ← h2]
   exact parseTokens_complete d
+
+theorem parse_ppSympy_surf (s : SExpr) (h : SWf s) : parseTokens (ppSympy s) = some (surf s) :=
+  parse_ppSympy_surfX s (swf_imp_swfX s h)
 
 /-! ### non-vacuity: the printer on the shapes `SymbolicDim` produces -/
 
@@ -698,9 +847,33 @@ example : ppSympy (.pow (.add [N, .int 1]) (.int 2)) =
 -- `swf` rejects: `M * K**(-N)` (prints `M/K**N`, differs at `K = 0` under strict evaluation),
 -- a number that is not the first factor, a wrong arity, `sqrt`
 example : swf (.mul [M, .pow N (.mul [.int (-1), M])]) = false := by decide
+-- ... which `SWfX` admits: M/N**M, M/N**(2*K), M/N**(K/2)
+example : ppSympy (.mul [M, .pow N (.mul [.int (-1), M])]) =
+    [.ident "M", .op .slash, .ident "N", .op .dstar, .ident "M"]
+    ∧ SWfX (.mul [M, .pow N (.mul [.int (-1), M])]) := by decide
+example : ppSympy (.mul [M, .pow N (.mul [.int (-2), .sym "K"])]) =
+    [.ident "M", .op .slash, .ident "N", .op .dstar, .lparen, .num 2, .op .star, .ident "K", .rparen]
+    := by decide
+example : ppSympy (.mul [M, .pow N (.mul [.rat (-1) 2, .sym "K"])]) =
+    [.ident "M", .op .slash, .ident "N", .op .dstar, .lparen, .ident "K", .op .slash, .num 2, .rparen]
+    := by decide
 example : swf (.mul [N, .int 2]) = false := by decide
 example : swf (.fn .floor [N, M]) = false := by decide
-example : swf (.pow N (.rat 1 2)) = false := by decide
+-- sqrt(N), 1/sqrt(N), M/sqrt(N), 2*sqrt(N), N**(1/3), M/N**(2/3)
+example : ppSympy (.pow N (.rat 1 2)) = [.ident "sqrt", .lparen, .ident "N", .rparen]
+    ∧ SWf (.pow N (.rat 1 2)) := by decide
+example : ppSympy (.pow N (.rat (-1) 2)) =
+    [.num 1, .op .slash, .ident "sqrt", .lparen, .ident "N", .rparen] := by decide
+example : ppSympy (.mul [M, .pow N (.rat (-1) 2)]) =
+    [.ident "M", .op .slash, .ident "sqrt", .lparen, .ident "N", .rparen]
+    ∧ SWf (.mul [M, .pow N (.rat (-1) 2)]) := by decide
+example : ppSympy (.mul [.int 2, .pow N (.rat 1 2)]) =
+    [.num 2, .op .star, .ident "sqrt", .lparen, .ident "N", .rparen] := by decide
+example : ppSympy (.pow N (.rat 1 3)) =
+    [.ident "N", .op .dstar, .lparen, .num 1, .op .slash, .num 3, .rparen] := by decide
+example : ppSympy (.mul [M, .pow N (.rat (-2) 3)]) =
+    [.ident "M", .op .slash, .ident "N", .op .dstar, .lparen, .num 2, .op .slash, .num 3, .rparen]
+    ∧ SWf (.mul [M, .pow N (.rat (-2) 3)]) := by decide
 example : swf (.add []) = false := by decide
 end Examples
 
